@@ -32,6 +32,27 @@ MUTATIONS = [
      "(false, true) => {\n                                if bp {\n                                    // Case II.A.2",
      "(true, false) => {\n                                if bp {\n                                    // Case II.A.2",
      "gen_deduce_eq"),
+    # ---- guarded catch-all arm of deduce (`_ if b0 == b1 || d0 == d1 => 0.0`, repair 4d5bbb1)
+    ("deduce guard: || -> && in the tie guard", "bi.rs",
+     "_ if cond[0].b() == cond[1].b() || cond[0].d() == cond[1].d() => 0.0,",
+     "_ if cond[0].b() == cond[1].b() && cond[0].d() == cond[1].d() => 0.0,", ("exact", 0, {"gen_deduce_eq"})),
+    ("deduce guard: == -> >= in the tie guard", "bi.rs",
+     "_ if cond[0].b() == cond[1].b() || cond[0].d() == cond[1].d() => 0.0,",
+     "_ if cond[0].b() >= cond[1].b() || cond[0].d() == cond[1].d() => 0.0,", ("exact", 0, {"gen_deduce_eq"})),
+    ("deduce guard: the tie arm removed (pre-repair text)", "bi.rs",
+     "_ if cond[0].b() == cond[1].b() || cond[0].d() == cond[1].d() => 0.0,", "", ("exact", 0, {"gen_deduce_eq"})),
+    ("deduce guard: body of the tie arm 0.0 -> 1.0", "bi.rs",
+     "_ if cond[0].b() == cond[1].b() || cond[0].d() == cond[1].d() => 0.0,",
+     "_ if cond[0].b() == cond[1].b() || cond[0].d() == cond[1].d() => 1.0,", ("exact", 0, {"gen_deduce_eq"})),
+    ("deduce guard: catch-all written as a tuple of `_` (same function: the tie must HOLD)", "bi.rs",
+     "_ if cond[0].b() == cond[1].b() || cond[0].d() == cond[1].d() => 0.0,",
+     "(_, _) if cond[0].b() == cond[1].b() || cond[0].d() == cond[1].d() => 0.0,", None),
+    ("deduce guard: guard on a pattern that is not a catch-all (outside the subset => hole)", "bi.rs",
+     "_ if cond[0].b() == cond[1].b() || cond[0].d() == cond[1].d() => 0.0,",
+     "(_, false) if cond[0].b() == cond[1].b() || cond[0].d() == cond[1].d() => 0.0,", ("exact", 3, {"gen_deduce_eq"})),
+    ("deduce guard: guard on the last arm (outside the subset => hole)", "bi.rs",
+     "(bp, _) => {\n                        let pyx", "(bp, _) if bp || !bp => {\n                        let pyx",
+     ("exact", 3, {"gen_deduce_eq"})),
     ("comul: harmless commutation d*d' -> d'*d", "bi.rs",
      "let d = self.d() * rhs.d()", "let d = rhs.d() * self.d()", "gen_comul_eq"),
     ("cfuse: && -> || in the vacuous test", "bi.rs",
